@@ -228,3 +228,24 @@ def write_events(body, trail, program=None):
         else:
             merged.append(p)
     return merged
+
+
+
+def path_conds(program, body, S, trail):
+    """Canonical branch conditions taken along one block path (see q.canon_cond).  Values are resolved along the path itself
+    (PathSlicer), so a local assigned differently on two branches has the value of the branch the path took."""
+    from . import q as Q
+    ps = PathSlicer(body, trail, program)
+    out = []
+    for k in range(len(trail) - 1):
+        x, y = trail[k], trail[k + 1]
+        if body.blocks[x]["t"]["k"] != "switch":
+            continue
+        ps.at(k)
+        be = T.branch_edges(body, ps, x)
+        if be is None:
+            continue
+        atom, labels = be
+        if y in labels:
+            out.extend(Q.canon_cond(program, atom, labels[y], x))
+    return out
